@@ -11,6 +11,7 @@
 //
 //	batch <path> <format> <f|n> <seed> <mod> <lo> <hi>  TAB  cases=<n> <obs>@<kind>*<count> ...
 //	allfmt <path> <mut> <f|n>                           TAB  cases=<n> …    (one input with every format and probe)
+//	types <path> <format> <f|n> <seed> <mod> <dir> <max> TAB  cases=<n> …    (type-string substitution, see worker.go)
 //	fields <path> <format> <f|n> <seed> <mod> <max> <pats> TAB  cases=<n> …    (field-aware saturation, see worker.go)
 //	d|i <path> <mut> <format> <f|n>                     TAB  <obs>          (every panic / resource case, every `i` case, replays)
 //	core <prim> <arg> <buf bytes> <pos bits> <f|n>      TAB  ok | err:io | err:decoder | panic:… | resource:…
@@ -42,6 +43,7 @@ type corpusFile struct {
 	dir  string // format/<dir>/…
 	size int    // bytes used (after the 64 KiB cut)
 	own  []string
+	seed bool // a generated seed of /verif/corpus/C06/seeds: always used
 }
 
 func allFormatNames() []string {
@@ -140,6 +142,34 @@ func listCorpus() []corpusFile {
 		files = append(files, corpusFile{path: rel, dir: strings.Split(rel, "/")[1], size: size})
 		return nil
 	})
+	// generated seed inputs kept in /verif/corpus/C06/seeds/<format>__<name>: structures that no sample of
+	// the repository has (e.g. a JPEG with extended XMP chunks); always used, own format = <format>
+	seedDir := filepath.Join(verifDir(), "corpus", "C06", "seeds")
+	if ents, err := os.ReadDir(seedDir); err == nil {
+		for _, e := range ents {
+			name := e.Name()
+			i := strings.Index(name, "__")
+			info, err := e.Info()
+			if e.IsDir() || i <= 0 || !isFormat[name[:i]] || err != nil || info.Size() == 0 || strings.ContainsAny(name, " \t|@#") {
+				continue
+			}
+			size := int(info.Size())
+			if size > maxWhole {
+				size = prefixLarge
+			}
+			fmtName := name[:i]
+			dir := fmtName
+			for _, f := range interp.DefaultRegistry.MustAll().Formats {
+				if f.Name == fmtName {
+					if d := formatPkgDir(f); d != "" {
+						dir = strings.Split(d, "/")[0]
+					}
+				}
+			}
+			fromTests["@corpus/C06/seeds/"+name] = map[string]bool{fmtName: true}
+			files = append(files, corpusFile{path: "@corpus/C06/seeds/" + name, dir: dir, size: size, seed: true})
+		}
+	}
 	for i := range files {
 		f := &files[i]
 		set := map[string]bool{}
@@ -185,6 +215,9 @@ type tierParams struct {
 	maxFields   int  // leaf fields considered per (file, format)
 	pairSeeds   bool // deep-nesting seeds also from two-byte patterns
 	fieldPats   string
+	modTypes    int // 1/mod sample of the type-string substitution
+	typesUnit   int
+	maxTypes    int // cases per types job
 	fieldsUnit  int // bytes of file size per unit of the fields sampling modulus
 }
 
@@ -208,7 +241,13 @@ func genJobs(r *hlib.Rand, seed uint64, tp tierParams, o *hlib.Out, workDir stri
 			ix[i], ix[k] = ix[k], ix[i]
 		}
 		if tp.perDir > 0 && len(ix) > tp.perDir {
-			ix = ix[:tp.perDir]
+			keep := ix[:tp.perDir:tp.perDir]
+			for _, i := range ix[tp.perDir:] {
+				if files[i].seed {
+					keep = append(keep, i)
+				}
+			}
+			ix = keep
 		}
 		sort.Ints(ix)
 		chosen = append(chosen, ix...)
@@ -288,6 +327,25 @@ func genJobs(r *hlib.Rand, seed uint64, tp tierParams, o *hlib.Out, workDir stri
 			for _, force := range []string{"n", "f"} {
 				jobs = append(jobs, &job{text: fmt.Sprintf("fields %s %s %s %d %d %d %s", f.path, n, force, seed, mod, tp.maxFields, tp.fieldPats),
 					size: f.size, format: n})
+			}
+		}
+	}
+	// type-string substitution: every place of the unchanged file that holds a 4-character string literal of
+	// the format's Go source (box / chunk / atom types …) gets every other such literal
+	fmtDir := map[string]string{}
+	for _, f := range interp.DefaultRegistry.MustAll().Formats {
+		fmtDir[f.Name] = formatPkgDir(f)
+	}
+	for _, i := range chosen {
+		f := files[i]
+		for _, n := range f.own {
+			dir := fmtDir[n]
+			if dir == "" {
+				continue
+			}
+			mod := tp.modTypes * max(1, f.size/tp.typesUnit)
+			for _, force := range []string{"n", "f"} {
+				jobs = append(jobs, &job{text: fmt.Sprintf("types %s %s %s %d %d %s %d", f.path, n, force, seed, mod, dir, tp.maxTypes), size: f.size, format: n})
 			}
 		}
 	}
@@ -502,9 +560,9 @@ func main() {
 			jobs = append(jobs, &job{text: l})
 		}
 	} else {
-		tp := tierParams{perDir: 12, modOwn: 50, modCross: 400, chunk: 300, modFields: 1, maxFields: 400, fieldPats: "zm", fieldsUnit: 1024}
+		tp := tierParams{perDir: 12, modOwn: 50, modCross: 400, chunk: 300, modFields: 1, maxFields: 400, fieldPats: "zm", fieldsUnit: 1024, modTypes: 16, typesUnit: 4096, maxTypes: 400}
 		if cfg.Thorough() {
-			tp = tierParams{perDir: 60, modOwn: 6, modCross: 40, fullBelow: 400, chunk: 400, modFields: 1, maxFields: 2000, pairSeeds: true, fieldPats: "zo1ms", fieldsUnit: 1024}
+			tp = tierParams{perDir: 60, modOwn: 6, modCross: 40, fullBelow: 400, chunk: 400, modFields: 1, maxFields: 2000, pairSeeds: true, fieldPats: "zo1ms", fieldsUnit: 1024, modTypes: 2, typesUnit: 8192, maxTypes: 3000}
 		}
 		if v, err := strconv.Atoi(os.Getenv("VERIF_C06_MOD")); err == nil && v > 0 {
 			tp.modOwn = v
